@@ -272,15 +272,25 @@ func (p *Proxy) Ping(context.Context) error { return nil }
 func (p *Proxy) CloseConn() error { return nil }
 
 // ImageLocalDigests .
-func (p *Proxy) ImageLocalDigests(context.Context, string) ([]string, error) {
+func (p *Proxy) ImageLocalDigests(_ context.Context, image string) ([]string, error) {
+	if strings.HasPrefix(image, MissingImagePrefix) {
+		return nil, errors.New("vengine: no such image " + image)
+	}
 	return []string{"sha256:v"}, nil
 }
+
+// MissingImagePrefix: images whose reference starts with it exist nowhere — the local check and the
+// pull fail on every node (a scripted failure of node preparation that needs no interception layer).
+const MissingImagePrefix = "missing/"
 
 // ImageRemoteDigest .
 func (p *Proxy) ImageRemoteDigest(context.Context, string) (string, error) { return "sha256:v", nil }
 
 // ImagePull .
-func (p *Proxy) ImagePull(context.Context, string, bool) (io.ReadCloser, error) {
+func (p *Proxy) ImagePull(_ context.Context, image string, _ bool) (io.ReadCloser, error) {
+	if strings.HasPrefix(image, MissingImagePrefix) {
+		return nil, errors.New("vengine: pull of " + image + " failed: not found")
+	}
 	return io.NopCloser(bytes.NewReader(nil)), nil
 }
 
